@@ -20,6 +20,12 @@ def _worker(fn, conn):
     # the implementation runs under CPython's DEFAULT recursion limit (what a user gets); the parent
     # harness process raises its own limit, which fork would otherwise hand down
     sys.setrecursionlimit(1000)
+    try:  # die with the dispatcher even if it is SIGKILLed
+        import ctypes
+        import signal
+        ctypes.CDLL("libc.so.6", use_errno=True).prctl(1, signal.SIGKILL)
+    except Exception:
+        pass
     while True:
         try:
             msg = conn.recv()
